@@ -1154,7 +1154,7 @@ Plan plan(const Ctx& c)
         p.kinds = kKindCases;
         p.empty = 4;
         p.randomBatches = th ? 2000000 : 40000;
-        p.histDet = kHistDetPairs;
+        p.histDet = kHistDetPairs + 3;  // all ordered pairs of canonical shapes + the three histories with aborted calls
         p.histRandom = th ? 20000 : 400;
     }
     else
@@ -1367,9 +1367,9 @@ std::vector<Op> randomHistory(Ctx& c, Rng& r)
                 h.push_back(o);
                 continue;
             }
-            if (c10 && r.chance(1, 12))
+            if (r.chance(1, c10 ? 12 : 20))
             {
-                o.batch = genBatch(r, 6, false, true);
+                o.batch = genBatch(r, 6, false, c.prop != "C01");
                 o.kind = r.chance(1, 4) ? 5 : 4;
                 o.throwAt = r.below(o.batch.pkts.size());
             }
@@ -1755,8 +1755,8 @@ void runCase(Ctx& c, long idx)
     {
         Rng r = c.fixedRng(idx);
         long j = i;
-        if (p.histDet == kHistDetPairs)
-            j += kHistDetSpecial;  // batch properties only run the pair histories
+        if (p.histDet == kHistDetPairs + 3)
+            j = (i < kHistDetPairs) ? i + kHistDetSpecial : 6 + (i - kHistDetPairs);  // batch properties: the pair histories, then the aborted-call histories 6..8
         runHistory(c, detHistory(j, r), r);
         return;
     }
